@@ -34,8 +34,10 @@ def advertised_distance(enc):
 def check_spec(ctx, cell, case):
     import torch
     spec = case["spec"]
-    cell = cell or cat.cell_of(spec)
+    cell = dict(cell or cat.cell_of(spec))
     fam = spec["family"]
+    if fam in ("cyclic", "cyclic_std"):
+        cell["k_gt_12"] = cat.nk_of(spec)[1] > 12
     try:
         enc = cat.build(spec)
     except ValueError as e:
